@@ -161,25 +161,54 @@ def random_connected(n, rng, p):
     return graph_from_edges(n, e)
 
 
-def draw_res(n, A, rng, kind):
-    """symmetric positive resistances on the links; exactly representable as doubles"""
+OFFLINK_MODES = ["dense", "dense", "some", "some-asym", "diag", "dense+diag"]
+
+
+def draw_res(n, A, rng, kind, offlink=None):
+    """symmetric positive resistances on the links; exactly representable as doubles.
+    `offlink`: the resistance *matrix* is non-zero also on pairs that are NOT links (a dense
+    distance-like matrix next to a thresholded adjacency): `dense` every non-linked pair,
+    `some` a random subset, `some-asym` a random subset of *ordered* pairs, `diag` the diagonal,
+    `dense+diag` both.  Only legal together with an explicit `adjacency=` (or in
+    `update_resistances` on an existing network): the links stay those of `A`."""
     R = [[Fr(0)] * n for _ in range(n)]
     pow2_base = rng.randrange(-30, 28)      # one extreme scale per network, ratios <= 8
+
+    def one():
+        if kind == "unit":
+            return Fr(1)
+        if kind == "int":
+            return Fr(rng.randrange(1, 11))
+        if kind == "dyadic":
+            return Fr(rng.randrange(1, 81), 8)
+        if kind == "pow2":     # extreme but exact: 1/r is exact in both float widths
+            return Fr(2) ** (pow2_base + rng.randrange(0, 4))
+        return Fr(2) ** rng.randrange(-4, 8) * rng.choice([1, 3, 5])   # wide
     for i in range(n):
         for j in range(i):
             if A[i][j]:
-                if kind == "unit":
-                    r = Fr(1)
-                elif kind == "int":
-                    r = Fr(rng.randrange(1, 11))
-                elif kind == "dyadic":
-                    r = Fr(rng.randrange(1, 81), 8)
-                elif kind == "pow2":     # extreme but exact: 1/r is exact in both float widths
-                    r = Fr(2) ** (pow2_base + rng.randrange(0, 4))
-                else:  # wide
-                    r = Fr(2) ** rng.randrange(-4, 8) * rng.choice([1, 3, 5])
-                R[i][j] = R[j][i] = r
+                R[i][j] = R[j][i] = one()
+    if offlink:
+        for i in range(n):
+            for j in range(i):
+                if not A[i][j]:
+                    if offlink in ("dense", "dense+diag") or \
+                            (offlink == "some" and rng.random() < 0.5):
+                        # smaller than the links now and then: a conducting non-link dominates
+                        R[i][j] = R[j][i] = one() / rng.choice([1, 1, 8])
+                    elif offlink == "some-asym":
+                        if rng.random() < 0.5:
+                            R[i][j] = one()
+                        if rng.random() < 0.5:
+                            R[j][i] = one()
+            if offlink in ("diag", "dense+diag"):
+                R[i][i] = one()
     return R
+
+
+def has_offlink(A, res):
+    n = len(A)
+    return any(res[i][j] != 0 and not A[i][j] for i in range(n) for j in range(n))
 
 
 def to_np(res, kind, dtype="auto"):
@@ -197,9 +226,13 @@ def to_np(res, kind, dtype="auto"):
 
 
 class Case:
-    def __init__(self, n, A, res, kind, tag, adj_from_res=False, dtype="auto", opts=None):
+    def __init__(self, n, A, res, kind, tag, adj_from_res=False, dtype="auto", opts=None,
+                 offlink=None):
         self.n, self.A, self.res, self.kind, self.tag = n, A, res, kind, tag
-        self.adj_from_res = adj_from_res
+        self.offlink = offlink if has_offlink(A, res) else None
+        # the default constructor derives the links from `resistances != 0`: only legal when
+        # the two patterns coincide
+        self.adj_from_res = adj_from_res and not self.offlink
         self.dtype = dtype
         self.opts = opts or {}          # non-default constructor arguments
 
@@ -224,7 +257,7 @@ class Case:
             a = big[::2, ::2]
         return a
 
-    def build_from(self, RN, arr):
+    def build_from(self, RN, arr, force_adj=False):
         kw = {}
         if "silence_level" in self.opts:
             kw["silence_level"] = self.opts["silence_level"]
@@ -239,7 +272,7 @@ class Case:
         if self.opts.get("edge_list"):
             # ignored by the class (adjacency comes from `adjacency` / the resistances)
             kw["edge_list"] = [(i, j) for i in range(self.n) for j in range(i) if self.A[i][j]]
-        if not self.adj_from_res:
+        if not self.adj_from_res or force_adj:
             kw["adjacency"] = np.array(self.A, dtype=self.opts.get("adj_dtype", np.int8))
         return quiet(RN, arr, **kw)
 
@@ -252,6 +285,7 @@ class Case:
              "resistances_dtype": str(self.array().dtype),
              "construct": "ResNetwork(res)" if self.adj_from_res
              else "ResNetwork(res, adjacency=A)",
+             "resistances_nonzero_on_unlinked_pairs": self.offlink,
              "constructor_options": {k: (str(v) if k == "adj_dtype" else v)
                                      for k, v in self.opts.items()}}
         d.update(extra)
@@ -282,8 +316,9 @@ def gen_cases(ctx, quick):
                 opts["adj_dtype"] = rng.choice([np.int64, np.uint8, bool, float])
         if rng.random() < 0.2:
             opts["layout"] = rng.choice(["F", "strided"])
-        c = Case(n, A, draw_res(n, A, rng, kind), kind, tag, adj_from_res=rng.random() < 0.3,
-                 dtype=rng.choice(["auto", "auto", "float64", "float32"]), opts=opts)
+        off = rng.choice(OFFLINK_MODES) if rng.random() < 0.3 else None
+        c = Case(n, A, draw_res(n, A, rng, kind, off), kind, tag, adj_from_res=rng.random() < 0.3,
+                 dtype=rng.choice(["auto", "auto", "float64", "float32"]), opts=opts, offlink=off)
         out.append(c)
 
     for n in (2, 3, 4):
@@ -509,6 +544,10 @@ def gen_history(c, rng, length, echo=True):
     ops = []
     cur = c.res
     n = c.n
+
+    def off():
+        # the new matrix is non-zero on unlinked pairs too (the links do not change)
+        return rng.choice(OFFLINK_MODES) if rng.random() < 0.3 else None
     if echo and rng.random() < 0.5 and length >= 3:
         # "echo" history: queries, an update, the same queries again (anything a query stored
         # before the update is asked for after it), possibly twice
@@ -517,9 +556,9 @@ def gen_history(c, rng, length, echo=True):
         ops = list(qs)
         for _ in range(rng.choice([1, 1, 2])):
             up = [op for op in gen_history(c, rng, 12, echo=False) if op[0] == "U"][:1] or \
-                [("U", draw_res(n, c.A, rng, "dyadic"), "float64")]
+                [("U", draw_res(n, c.A, rng, "dyadic", off()), "float64")]
             if up[0][2] in ("held-inplace", "caller-inplace") and rng.random() < 0.5:
-                up = [("U", draw_res(n, c.A, rng, "dyadic"), up[0][2])]
+                up = [("U", draw_res(n, c.A, rng, "dyadic", off()), up[0][2])]
             ops += up + qs
         return ops
     for _ in range(length):
@@ -541,9 +580,9 @@ def gen_history(c, rng, length, echo=True):
             elif r < 0.52:      # the same values again
                 new = [list(r_) for r_ in cur]
             else:
-                new = draw_res(n, c.A, rng, rng.choice(["unit", "int", "dyadic", "pow2"]))
+                new = draw_res(n, c.A, rng, rng.choice(["unit", "int", "dyadic", "pow2"]), off())
             if mx * 10 > 2 ** 50 or mn < Fr(10, 2 ** 50):
-                new = draw_res(n, c.A, rng, "dyadic")
+                new = draw_res(n, c.A, rng, "dyadic", off())
             cur = new
             ops.append(("U", new, rng.choice(UPDATE_HOWS)))
         elif k < 0.37:
@@ -603,10 +642,18 @@ class Live:
 
     @property
     def mag(self):
-        return float(np.abs(self.cur.astype(float)).max())
+        """largest current resistance *of a link* (entries on unlinked pairs carry no current
+        and must not loosen the tolerances)"""
+        a = np.abs(self.cur.astype(float))
+        m = np.array(self.c.A) != 0
+        return float(a[m].max()) if m.shape == a.shape and m.any() else float(a.max())
 
     def twin(self):
-        return self.c.build_from(self.RN, self.cur.copy())
+        """a freshly constructed network with the current resistances and the same links
+        (`adjacency=` is passed explicitly as soon as the matrix is non-zero off the links)"""
+        off = self.cur.shape == (self.n, self.n) and \
+            bool(np.any((np.asarray(self.cur) != 0) & (np.array(self.c.A) == 0)))
+        return self.c.build_from(self.RN, self.cur.copy(), force_adj=off)
 
     @staticmethod
     def _fits(dtype, new):
@@ -772,7 +819,10 @@ def run(ctx):
     # ------------------------------------------------------------------
     # A. implementation vs Lean model vs exact oracle, all observables
     # ------------------------------------------------------------------
-    reqs = [f"net {c.n} {enc_adj(c.A)} {enc_mat(c.res)}" for c in cases]
+    # networks constructed without `adjacency=` go through the model of that constructor branch
+    # (`defaultAdj`: links = non-zero pattern of the resistances)
+    reqs = [f"netd {c.n} {enc_mat(c.res)}" if c.adj_from_res
+            else f"net {c.n} {enc_adj(c.A)} {enc_mat(c.res)}" for c in cases]
     model = pdriver(ctx.pid, reqs)
     bad = []
     nobs = 0
@@ -783,6 +833,7 @@ def run(ctx):
         ctx.count("res:" + c.kind)
         ctx.count(f"n={c.n}")
         ctx.count("construct:" + ("from-resistances" if c.adj_from_res else "adjacency-given"))
+        ctx.count("offlink-resistances:" + (c.offlink or "none"))
         ctx.count("layout:" + c.opts.get("layout", "C"))
         nontriv = c.n >= 3 and len({v for r in c.res for v in r if v != 0}) > 1
         ctx.case(c.canon(), nontriv, c.replay() if c.n <= 5 else None)
@@ -876,7 +927,9 @@ def run(ctx):
     for _ in range(90 if quick else 900):
         c = rng.choice(pool)
         hcases.append((c, gen_history(c, rng, rng.randrange(2, 9 if quick else 14))))
-    hreqs = [" ".join(["hist", str(c.n), enc_adj(c.A), enc_mat(c.res)] + [enc_op(op) for op in ops])
+    hreqs = [" ".join((["histd", str(c.n), enc_mat(c.res)] if c.adj_from_res
+                       else ["hist", str(c.n), enc_adj(c.A), enc_mat(c.res)])
+                      + [enc_op(op) for op in ops])
              for c, ops in hcases]
     hans = pdriver(ctx.pid, hreqs)
     hbad = []
@@ -886,6 +939,8 @@ def run(ctx):
         ctx.count("history:updates=%d" % sum(op[0] == "U" for op in ops))
         for op in ops:
             ctx.count("history-op:" + (("update:" + op[2]) if op[0] == "U" else QUERY_NAMES[op[0]]))
+            if op[0] == "U" and has_offlink(c.A, op[1]):
+                ctx.count("history-op:update-with-nonzero-resistances-on-unlinked-pairs")
         ctx.case(("hist", c.canon(), [enc_op(op) + (op[2] if op[0] == "U" else "") for op in ops]),
                  True)
         exact = [p_fr(t) for t in ans.split(",")]
@@ -1021,6 +1076,13 @@ def hub_stream(ctx, RN, rng, quick):
                 if A[i][j]:
                     res[i, j] = res[j, i] = rng.choice([0.5, 1.0, 2.0, 4.0])
         dt = rng.choice(["float64", "float32", "int8-adjacency-only"])
+        offl = dt != "float64" and rng.random() < 0.5
+        if offl:        # dense resistance matrix, the links are those of the adjacency only
+            for i in range(n):
+                for j in range(i):
+                    if not A[i][j]:
+                        res[i, j] = res[j, i] = rng.choice([0.25, 0.5, 1.0, 2.0])
+        ctx.count("hub:offlink-dense" if offl else "hub:offlink-none")
         arr = res.astype(np.float32) if dt == "float32" else res.copy()
         ctx.count(f"hub:n={n}")
         ctx.count("hub:" + dt)
@@ -1030,7 +1092,9 @@ def hub_stream(ctx, RN, rng, quick):
             "links_with_resistance": [[i, j, float(res[i, j])] for i in range(n) for j in range(i)
                                       if A[i][j]],
             "construct": "ResNetwork(res)" if dt == "float64"
-            else "ResNetwork(res, adjacency=int8 matrix)"}
+            else "ResNetwork(res, adjacency=int8 matrix)",
+            "resistances_nonzero_on_unlinked_pairs": "all pairs, values in {1/4, 1/2, 1, 2}"
+            if offl else None}
         tol = 3e-5 if dt == "float32" else 1e-8
         try:
             net = quiet(RN, arr, adjacency=np.array(A, dtype=np.int8)) \
@@ -1098,7 +1162,15 @@ def hub_stream(ctx, RN, rng, quick):
 def wrapper_stream(ctx, RN, rng):
     """the public factories: SmallTestNetwork() against model and oracle like any other network,
     SmallComplexNetwork() through the complex oracle"""
-    net = quiet(RN.SmallTestNetwork)
+    try:
+        net = quiet(RN.SmallTestNetwork)
+        quiet(RN.SmallComplexNetwork)
+    except Exception as ex:  # noqa
+        ctx.fail({"kind": "wrapper", "factory": "SmallTestNetwork/SmallComplexNetwork",
+                  "error": type(ex).__name__},
+                 f"the public factories raise {type(ex).__name__}: {ex}",
+                 {"call": "ResNetwork.SmallTestNetwork(); ResNetwork.SmallComplexNetwork()"})
+        return
     A = [[int(v) for v in r] for r in np.asarray(net.adjacency).tolist()]
     res = [[Fr(int(v)) for v in r] for r in np.asarray(net.resistances).tolist()]
     n = len(A)
@@ -1342,7 +1414,8 @@ def oracle_case(ctx, c, o, RN, rng):
         res2 = [[v * f for v in r] for r in c.res]
         for how in ("new", "update"):
             if how == "new":
-                c2 = Case(n, c.A, res2, "dyadic", c.tag, c.adj_from_res, c.dtype, c.opts)
+                c2 = Case(n, c.A, res2, "dyadic", c.tag, c.adj_from_res, c.dtype, c.opts,
+                          offlink=c.offlink)
                 net2 = c2.build(RN)
             else:
                 net2 = c.build(RN)
@@ -1405,13 +1478,22 @@ def stress_stream(ctx, RN, rng, count):
             for j in range(i):
                 if A[i][j]:
                     res[i][j] = res[j][i] = rng.choice(mags) * rng.choice([1, 2, 5])
+        offl = rng.random() < 0.5
+        if offl:        # explicit links; the matrix also holds (very small / very large) values
+            for i in range(n):          # on unlinked pairs, which must not conduct
+                for j in range(i):
+                    if not A[i][j] and rng.random() < 0.7:
+                        res[i][j] = res[j][i] = rng.choice(mags) / rng.choice([1, 1000]) \
+                            * rng.choice([1, 2, 5])
         ex = exact_er(n, A, res)
-        rep = {"n": n, "adjacency": A, "resistances": [[str(v) for v in r] for r in res]}
+        rep = {"n": n, "adjacency": A, "resistances": [[str(v) for v in r] for r in res],
+               "construct": "ResNetwork(res, adjacency=A)" if offl else "ResNetwork(res)"}
         ctx.case(("stress", enc_adj(A), str(res)), True,
                  {"stress": "wide resistance range", "n": n} if rep_i == 0 else None)
-        ctx.count("stress:wide-range")
+        ctx.count("stress:wide-range" + (":adjacency-given+offlink-values" if offl else ""))
         try:
-            net = quiet(RN, np.array([[float(v) for v in r] for r in res]), silence_level=3)
+            kw = {"adjacency": np.array(A, dtype=np.int8)} if offl else {}
+            net = quiet(RN, np.array([[float(v) for v in r] for r in res]), silence_level=3, **kw)
             er = [[float(quiet(net.effective_resistance, a, b)) for b in range(n)] for a in range(n)]
         except Exception as e:  # noqa
             ctx.fail({"kind": "stress", "law": "exception"},
@@ -1522,6 +1604,16 @@ def complex_stream(ctx, RN, rng, count):
             for j in range(i):
                 if A[i][j]:
                     Z[i, j] = Z[j, i] = complex(rng.randrange(1, 17) / 2, rng.randrange(-16, 17) / 2)
+        if rng.random() < 0.3:         # impedance matrix non-zero on unlinked pairs / diagonal
+            mode = rng.choice(["dense", "some", "diag"])
+            for i in range(n):
+                for j in range(i):
+                    if not A[i][j] and (mode == "dense" or (mode == "some" and rng.random() < 0.5)):
+                        Z[i, j] = Z[j, i] = complex(rng.randrange(1, 17) / 8,
+                                                    rng.randrange(-16, 17) / 8)
+                if mode == "diag":
+                    Z[i, i] = complex(rng.randrange(1, 9) / 2, rng.randrange(-8, 9) / 2)
+            ctx.count("complex-offlink:" + mode)
         if rng.random() < 0.25:        # extreme but exact common scale
             Z = Z * 2.0 ** rng.choice([-40, -20, 20, 40])
         zdt = rng.choice([complex, complex, np.complex64])
